@@ -424,6 +424,10 @@ func c14PendingLimit(ev *vlib.Evidence, idx int) {
 	go a.Serve()
 	go b.Serve()
 	waiters := 1 + r.Intn(3)
+	if idx%3 == 2 {
+		// more calls waiting than the table's limit: none of them is stale
+		waiters = limit + 5 + r.Intn(25)
+	}
 	type res struct {
 		token, got string
 		err        error
@@ -442,23 +446,47 @@ func c14PendingLimit(ev *vlib.Evidence, idx int) {
 	time.Sleep(20 * time.Millisecond) // let the waiters send their requests first (they are the oldest entries)
 	cancelled := limit + discard + r.Intn(30)
 	slowCancel := 0
-	for i := 0; i < cancelled; i++ {
-		ctx, cancel := context.WithTimeout(context.Background(), time.Duration(1+r.Intn(3))*time.Millisecond)
-		var out string
-		t0 := time.Now()
-		err := a.Call(ctx, &out, "gate_never")
-		cancel()
-		if err == nil || time.Since(t0) > 5*time.Second {
-			slowCancel++
+	desc := fmt.Sprintf("pending-limit limit=%d discard=%d waiters=%d cancelled=%d idx=%d", limit, discard, waiters, cancelled, idx)
+	timeouts := make([]time.Duration, cancelled)
+	for i := range timeouts {
+		timeouts[i] = time.Duration(1+r.Intn(3)) * time.Millisecond
+	}
+	cancelDone := make(chan int, 1)
+	go func() {
+		slow := 0
+		for i := 0; i < cancelled; i++ {
+			ctx, cancel := context.WithTimeout(context.Background(), timeouts[i])
+			var out string
+			t0 := time.Now()
+			err := a.Call(ctx, &out, "gate_never")
+			cancel()
+			if err == nil || time.Since(t0) > 5*time.Second {
+				slow++
+			}
 		}
+		cancelDone <- slow
+	}()
+	select {
+	case slowCancel = <-cancelDone:
+	case <-time.After(90 * time.Second):
+		ev.Case(desc, true)
+		ev.Violate("pending-limit:calls-never-returned", map[string]interface{}{"case": desc, "note": "calls with a context of a few milliseconds have not returned after 90 s"})
+		close(gate.release)
+		return
 	}
 	close(gate.release)
-	desc := fmt.Sprintf("pending-limit limit=%d discard=%d waiters=%d cancelled=%d idx=%d", limit, discard, waiters, cancelled, idx)
 	ev.Case(desc, true)
 	ev.Count("pending-limit-rounds", 1)
 	ev.Count("pending-limit-cancelled-calls", int64(cancelled))
+	giveUp := time.After(90 * time.Second)
 	for i := 0; i < waiters; i++ {
-		rs := <-results
+		var rs res
+		select {
+		case rs = <-results:
+		case <-giveUp:
+			ev.Violate("pending-limit:calls-never-returned", map[string]interface{}{"case": desc, "returned": i, "of": waiters, "note": "neither a reply nor the context's error 70 s after every context has ended"})
+			return
+		}
 		if rs.err != nil {
 			ev.Violate("pending-limit:waiting-call-lost-its-reply", map[string]interface{}{"case": desc, "token": rs.token, "err": rs.err.Error()})
 		} else if rs.got != rs.token {
